@@ -1,9 +1,17 @@
-(* Crash.v — the durable side of Commit as a vector of store versions (property C08).
-   Commit performs its durable writes one after the other, in the order recorded by the verif
-   hooks on every run; a crash keeps a prefix of them.  On start each store opens at its own latest
-   version, Info reports the block context of the meta store, and consensus replays the blocks above
-   that height.  The model says which prefixes recover; the harness starts a real node on the data
-   directory as it was after each write and compares. *)
+(* Crash.v — the durable side of Commit (property C08).
+   Commit performs its durable writes one store after the other, in the order recorded by the verif
+   hooks on every run; a crash keeps a prefix of them.  On start the application reads the height of
+   the last block whose context reached the meta store — the height Info reports — and brings every
+   other store back to that version (ledger.RollbackTo, evm.RollbackTo, called by NewRigoApp);
+   consensus then replays the blocks above that height.
+
+   Two layers:
+   - versions only (what the version checks of BeginBlock/Commit look at): [recover] on the
+     versions a start finds, with and without the roll-back;
+   - contents: a store is the list of the contents it saved, a block computes the new content of
+     every store from the contents of ALL stores at the previous version; a crash appends to a
+     prefix of the stores.  With the roll-back, start + replay reproduce exactly the disk of a
+     node that never crashed — for every block, every crash point, any number of crashes in a row. *)
 From Rigo Require Import Base.
 From stdpp Require Import list.
 Local Open Scope Z_scope.
@@ -16,7 +24,8 @@ Inductive store :=
 | SMetaCtx.                                     (* MetaDB: last block context, which Info reports *)
 
 (* order of the version-bearing durable writes of one Commit; the reward-hash record, the EVM trie
-   nodes and the legacy block-height record carry no version that start-up looks at *)
+   nodes and the legacy block-height record carry no version that start-up looks at (a replay
+   writes the same values again) *)
 Definition write_order : list store :=
   [SGovParams; SProposal; SFrozenProposal; SAccounts; SDelegatees; SFrozen; SRewards; SEvmRoot; SMetaCtx].
 
@@ -35,7 +44,7 @@ Definition P_COMMIT_GOV := 2.  (* GovCtrler.Commit: wrong version number *)
 Definition P_COMMIT_STAKE := 3.
 Definition P_COMMIT_APP := 4.  (* RigoApp.Commit: Not same versions *)
 
-(* start-up on these versions, then replay of block (meta + 1) by consensus:
+(* replay of block (meta + 1) by consensus on stores opened at the versions [vs]:
    BeginBlock checks heights (RigoApp against the meta store, the EVM controller against its own
    record), Commit saves every ledger as its version + 1 and compares the resulting versions *)
 Definition recover (vs : versions) : outcome :=
@@ -49,9 +58,68 @@ Definition recover (vs : versions) : outcome :=
 
 Definition recovers (vs : versions) : bool := match recover vs with Recovers _ => true | _ => false end.
 
-(* ------------------------------------------------------------------ theorems *)
-(* a crash before the first or after the last write recovers: Info reports the last fully
-   committed block, respectively the interrupted one *)
+(* what NewRigoApp does before it opens the controllers: every store that is ahead of the height the
+   meta store reports is brought back to it *)
+Definition rollback_v (vs : versions) : versions := λ s, Z.min (vs s) (vs SMetaCtx).
+Definition start (vs : versions) : outcome := recover (rollback_v vs).
+
+(* ------------------------------------------------------------------ versions: theorems *)
+Lemma crash_after_ge v k : (9 <= k)%nat → crash_after v k = crash_after v 9.
+Proof.
+  intros Hk. unfold crash_after. rewrite !take_ge by (unfold write_order; cbn; lia). reflexivity.
+Qed.
+
+Lemma crash_after_cases v k s :
+  crash_after v k s = v ∨ crash_after v k s = v + 1.
+Proof.
+  destruct (le_lt_dec 9 k) as [Hk|Hk]; [rewrite (crash_after_ge v k Hk)|];
+    unfold crash_after, write_order.
+  - destruct s; cbn; unfold bump, all_at; cbn; auto.
+  - do 9 (destruct k as [|k]; [destruct s; cbn; unfold bump, all_at; cbn; auto|]). lia.
+Qed.
+
+Lemma crash_after_meta v k :
+  crash_after v k SMetaCtx = if (9 <=? k)%nat then v + 1 else v.
+Proof.
+  destruct (9 <=? k)%nat eqn:E.
+  - apply Nat.leb_le in E. rewrite (crash_after_ge v k E). unfold crash_after, write_order. cbn; unfold bump, all_at; cbn; reflexivity.
+  - apply Nat.leb_gt in E. unfold crash_after, write_order.
+    do 9 (destruct k as [|k]; [cbn; unfold bump, all_at; cbn; reflexivity|]). lia.
+Qed.
+
+Lemma crash_after_full v k s : (9 <= k)%nat → crash_after v k s = v + 1.
+Proof.
+  intros Hk. rewrite (crash_after_ge v k Hk). unfold crash_after, write_order.
+  destruct s; cbn; unfold bump, all_at; cbn; reflexivity.
+Qed.
+
+(* after the roll-back all stores are at the reported height, whatever the crash point *)
+Theorem rollback_levels v k :
+  rollback_v (crash_after v k) = all_at (if (9 <=? k)%nat then v + 1 else v) ∨
+  ∀ s, rollback_v (crash_after v k) s = (if (9 <=? k)%nat then v + 1 else v).
+Proof.
+  right. intros s. unfold rollback_v. rewrite crash_after_meta.
+  destruct (9 <=? k)%nat eqn:E.
+  - apply Nat.leb_le in E. rewrite crash_after_full by exact E. lia.
+  - destruct (crash_after_cases v k s) as [-> | ->]; lia.
+Qed.
+
+Lemma recover_level vs h : (∀ s, vs s = h) → recover vs = Recovers h.
+Proof.
+  intros H. unfold recover. rewrite !H, !Z.eqb_refl. cbn. reflexivity.
+Qed.
+
+(* with the roll-back EVERY crash point of EVERY block recovers: the node reports the last fully
+   committed block (crash before the block context is written) or the interrupted one (after) *)
+Theorem start_recovers v k :
+  start (crash_after v k) = Recovers (if (9 <=? k)%nat then v + 1 else v).
+Proof.
+  unfold start. apply recover_level. destruct (rollback_levels v k) as [H|H]; [rewrite H; reflexivity|exact H].
+Qed.
+
+(* without the roll-back (stores opened at their own latest version, as the code did before the
+   repair) every crash point strictly inside the write sequence leaves versions from which the
+   replay of the interrupted block panics — for every block height *)
 Theorem crash_before_commit_recovers v : recover (crash_after v 0) = Recovers v.
 Proof.
   unfold recover, crash_after; simpl. unfold all_at.
@@ -64,13 +132,10 @@ Proof.
   rewrite !Z.eqb_refl. reflexivity.
 Qed.
 
-(* every crash point strictly inside the sequence leaves the stores at versions from which the
-   replay of the interrupted block panics — for every block height *)
-Theorem crash_inside_commit_bricks v k :
+Theorem crash_inside_commit_bricks_without_rollback v k :
   (0 < k < length write_order)%nat → recovers (crash_after v k) = false.
 Proof.
   intros Hk. unfold write_order in Hk; simpl in Hk.
-  assert (E : ∀ a b : Z, a + 1 =? a + 1 + 1 = false) by (intros; apply Z.eqb_neq; lia).
   assert (E1 : (v + 1 =? v) = false) by (apply Z.eqb_neq; lia).
   assert (E2 : (v =? v + 1) = false) by (apply Z.eqb_neq; lia).
   assert (E3 : (v + 1 + 1 =? v + 1) = false) by (apply Z.eqb_neq; lia).
@@ -79,15 +144,183 @@ Proof.
   lia.
 Qed.
 
-(* the exact panic site per crash point (what the harness compares with the real node) *)
-Definition predicted (k : nat) : outcome := recover (crash_after 0 k).
+(* ------------------------------------------------------------------ contents *)
+Section Contents.
+  Context {C : Type}.
+  (* genesis contents, and what block h, executed on the committed contents of ALL stores, saves in
+     each store (execution is deterministic: C01) *)
+  Context (g : store → C) (step : Z → (store → C) → store → C).
+
+  (* a disk: per store the contents saved so far (version n = n-th element, oldest first) *)
+  Definition disk := store → list C.
+  Definition ver (d : disk) (s : store) : Z := Z.of_nat (length (d s)).
+  Definition cur (d : disk) : store → C := λ s, List.last (d s) (g s).
+  Definition level (d : disk) (n : nat) : Prop := ∀ s, length (d s) = n.
+
+  (* the commit of the block after the state of [d], interrupted after its first k durable writes
+     (k >= 9: completed).  All new contents were computed, in memory, from the state before the commit. *)
+  Definition commit_prefix (d : disk) (k : nat) : disk :=
+    let h := ver d SMetaCtx + 1 in
+    λ s, if bool_decide (s ∈ take k write_order) then d s ++ [step h (cur d) s] else d s.
+  Definition commit (d : disk) : disk := commit_prefix d 9.
+
+  (* start: every store is cut back to the number of versions of the meta store *)
+  Definition rollback (d : disk) : disk := λ s, take (length (d SMetaCtx)) (d s).
+
+  Lemma all_in_write_order s : s ∈ write_order.
+  Proof. unfold write_order. destruct s; repeat (first [apply elem_of_list_here | apply elem_of_list_further]). Qed.
+
+  Lemma commit_prefix_full d k s : (9 <= k)%nat → commit_prefix d k s = d s ++ [step (ver d SMetaCtx + 1) (cur d) s].
+  Proof.
+    intros Hk. unfold commit_prefix.
+    rewrite bool_decide_eq_true_2; [reflexivity|].
+    rewrite take_ge by (unfold write_order; cbn; lia). apply all_in_write_order.
+  Qed.
+
+  Lemma meta_not_in_prefix k : (k < 9)%nat → SMetaCtx ∉ take k write_order.
+  Proof.
+    intros Hk. unfold write_order.
+    do 9 (destruct k as [|k]; [cbn; intros H; repeat (apply elem_of_cons in H as [H|H]; [discriminate|]); inversion H|]). lia.
+  Qed.
+
+  (* a crash before the block context is written, then a start: the disk is exactly what it was
+     before the interrupted commit *)
+  Theorem rollback_undoes_partial_commit d n k :
+    level d n → (k < 9)%nat → ∀ s, rollback (commit_prefix d k) s = d s.
+  Proof.
+    intros Hl Hk s. unfold rollback.
+    assert (Hm : commit_prefix d k SMetaCtx = d SMetaCtx).
+    { unfold commit_prefix. rewrite bool_decide_eq_false_2; [reflexivity|apply meta_not_in_prefix; exact Hk]. }
+    rewrite Hm, (Hl SMetaCtx). unfold commit_prefix.
+    destruct (bool_decide (s ∈ take k write_order)).
+    - rewrite take_app_alt by (rewrite (Hl s); reflexivity). reflexivity.
+    - rewrite take_ge by (rewrite (Hl s); lia). reflexivity.
+  Qed.
+
+  (* a crash after it: the start keeps the completed commit *)
+  Theorem rollback_keeps_full_commit d n k :
+    level d n → (9 <= k)%nat → ∀ s, rollback (commit_prefix d k) s = commit d s.
+  Proof.
+    intros Hl Hk s. unfold rollback, commit.
+    rewrite !commit_prefix_full by lia.
+    rewrite take_ge; [reflexivity|]. rewrite !app_length, (Hl s), (Hl SMetaCtx). cbn. lia.
+  Qed.
+
+  Lemma level_commit d n : level d n → level (commit d) (S n).
+  Proof.
+    intros Hl s. unfold commit. rewrite commit_prefix_full by lia. rewrite app_length, (Hl s). cbn. lia.
+  Qed.
+
+  Definition disk_eq (a b : disk) : Prop := ∀ s, a s = b s.
+
+  (* extensional equality of the computed contents needs [step] to respect pointwise equality of the
+     state it reads; stated for states that are pointwise equal *)
+  Definition step_ext : Prop := ∀ h f f', (∀ s, f s = f' s) → ∀ s, step h f s = step h f' s.
+
+  Lemma commit_ext a b : step_ext → disk_eq a b → disk_eq (commit a) (commit b).
+  Proof.
+    intros Hx H s. unfold commit. rewrite !commit_prefix_full by lia.
+    unfold ver. rewrite (H s), (H SMetaCtx). f_equal. f_equal.
+    apply Hx. intros s'. unfold cur. rewrite (H s'). reflexivity.
+  Qed.
+
+  (* one block with any number of crashes in a row before its commit finally completes: each crash
+     point is < 9 (a crash at or after the ninth write IS a completed commit); between two attempts
+     the node starts (roll-back) and consensus replays the block *)
+  Fixpoint attempts (d : disk) (crashes : list nat) : disk :=
+    match crashes with
+    | [] => commit d
+    | k :: r => attempts (rollback (commit_prefix d k)) r
+    end.
+
+  Theorem attempts_same_as_uncrashed (Hx : step_ext) crashes : ∀ d n,
+    level d n → Forall (λ k, (k < 9)%nat) crashes → disk_eq (attempts d crashes) (commit d).
+  Proof.
+    induction crashes as [|k r IH]; intros d n Hl Hk; cbn [attempts]; [intros s; reflexivity|].
+    inversion Hk as [|? ? Hk1 Hk2]; subst.
+    pose proof (rollback_undoes_partial_commit d n k Hl Hk1) as Hu.
+    intros s. rewrite (IH (rollback (commit_prefix d k)) n); [|intros s'; rewrite Hu; apply Hl|exact Hk2].
+    apply commit_ext; [exact Hx|exact Hu].
+  Qed.
+
+  (* a whole run: per block the list of crash points met before its commit completed *)
+  Fixpoint run (d : disk) (blocks : list (list nat)) : disk :=
+    match blocks with [] => d | cr :: r => run (attempts d cr) r end.
+  Definition uncrashed (d : disk) (nblocks : nat) : disk := Nat.iter nblocks commit d.
+
+  Lemma level_ext a b n : disk_eq a b → level a n → level b n.
+  Proof. intros H Hl s. rewrite <- (H s). apply Hl. Qed.
+
+  Lemma iter_commit_ext (Hx : step_ext) m : ∀ a b, disk_eq a b → disk_eq (Nat.iter m commit a) (Nat.iter m commit b).
+  Proof.
+    induction m as [|m IH]; intros a b H; [exact H|].
+    rewrite !Nat.iter_succ. apply commit_ext; [exact Hx|apply IH; exact H].
+  Qed.
+
+  Lemma iter_commit_shift m d : Nat.iter m commit (commit d) = commit (Nat.iter m commit d).
+  Proof. rewrite <- Nat.iter_succ_r. apply Nat.iter_succ. Qed.
+
+  (* C08 on contents: whatever the crash points, after the last block the disk is the disk of a node
+     that executed the same blocks and never crashed (hence the same application hashes from then on) *)
+  Theorem run_same_as_uncrashed (Hx : step_ext) blocks : ∀ d n,
+    level d n → Forall (Forall (λ k, (k < 9)%nat)) blocks →
+    disk_eq (run d blocks) (uncrashed d (length blocks)).
+  Proof.
+    induction blocks as [|cr r IH]; intros d n Hl Hk; [intros s; reflexivity|].
+    cbn [run length]. inversion Hk as [|? ? Hk1 Hk2]; subst.
+    pose proof (attempts_same_as_uncrashed Hx cr d n Hl Hk1) as Ha.
+    intros s. rewrite (IH (attempts d cr) (S n)); [|eapply level_ext; [intros s'; symmetry; apply Ha|apply level_commit; exact Hl]|exact Hk2].
+    unfold uncrashed. rewrite Nat.iter_succ_r.
+    apply iter_commit_ext; [exact Hx|exact Ha].
+  Qed.
+
+  (* and the versions a start finds are those of the version layer: the height Info reports after a
+     crash is the number of completed commits *)
+  Theorem reported_height d n k : level d n →
+    ver (rollback (commit_prefix d k)) SMetaCtx = Z.of_nat n + (if (9 <=? k)%nat then 1 else 0).
+  Proof.
+    intros Hl. destruct (9 <=? k)%nat eqn:E.
+    - apply Nat.leb_le in E. unfold ver. rewrite (rollback_keeps_full_commit d n k Hl E).
+      rewrite (level_commit d n Hl). lia.
+    - apply Nat.leb_gt in E. unfold ver. rewrite (rollback_undoes_partial_commit d n k Hl E), (Hl SMetaCtx). lia.
+  Qed.
+End Contents.
+
+(* without the roll-back the replay starts from a mixed state: a store already holding the content of
+   the interrupted block is read as if it were the previous one (here: a counter per store, a block
+   adds the sum of all counters to each) *)
+Definition demo_step (h : Z) (f : store → Z) (s : store) : Z := f s + h.
+Definition demo_disk : disk := λ _, [10].
+Example replay_without_rollback_applies_twice :
+  let d := commit_prefix (λ _, 0) demo_step demo_disk 1 in       (* crash after the first store was saved *)
+  cur (λ _, 0) d SGovParams = 12 ∧ cur (λ _, 0) d SAccounts = 10 ∧
+  (* a replay that reads this state adds the block to the first store a second time *)
+  demo_step 2 (cur (λ _, 0) d) SGovParams = 14 ∧
+  cur (λ _, 0) (commit (λ _, 0) demo_step demo_disk) SGovParams = 12.
+Proof. vm_compute. repeat split; reflexivity. Qed.
+
+(* non-vacuity of the content theorems: a three-block run with crashes at several points *)
+Example run_demo :
+  let d := run (λ _, 0) demo_step demo_disk [[3; 8]; []; [0; 5; 1]]%nat in
+  d SGovParams = [10; 12; 15; 19] ∧ d SMetaCtx = [10; 12; 15; 19] ∧
+  uncrashed (λ _, 0) demo_step demo_disk 3 SRewards = [10; 12; 15; 19].
+Proof. vm_compute. repeat split; reflexivity. Qed.
+
+(* ------------------------------------------------------------------ correspondence entry point *)
+(* the exact outcome per crash point (what the harness compares with the real node) *)
+Definition predicted (k : nat) : outcome := start (crash_after 0 k).
 Example predicted_table :
   map predicted [0; 1; 2; 3; 4; 5; 6; 7; 8; 9]%nat =
+  [Recovers 0; Recovers 0; Recovers 0; Recovers 0; Recovers 0; Recovers 0; Recovers 0; Recovers 0; Recovers 0; Recovers 1].
+Proof. vm_compute. reflexivity. Qed.
+(* what the unrepaired start-up did (kept for the record and for the necessity theorem) *)
+Definition predicted_without_rollback (k : nat) : outcome := recover (crash_after 0 k).
+Example predicted_without_rollback_table :
+  map predicted_without_rollback [0; 1; 2; 3; 4; 5; 6; 7; 8; 9]%nat =
   [Recovers 0; PanicsAt P_COMMIT_GOV; PanicsAt P_COMMIT_GOV; PanicsAt P_COMMIT_APP; PanicsAt P_COMMIT_APP;
    PanicsAt P_COMMIT_STAKE; PanicsAt P_COMMIT_STAKE; PanicsAt P_COMMIT_APP; PanicsAt P_BEGIN_EVM; Recovers 1].
 Proof. vm_compute. reflexivity. Qed.
 
-(* ------------------------------------------------------------------ correspondence entry point *)
 (* observed: (number of version-bearing writes completed, 0 = the node recovered | panic site) *)
 Definition outcome_code (o : outcome) : Z := match o with Recovers _ => 0 | PanicsAt s => s end.
 Definition check_crash (obs : list (nat * Z)) : list (nat * Z * Z) :=
